@@ -272,6 +272,7 @@ func C17(ctx *core.Ctx) int {
 		progs = append(progs, dsl.P5()...)
 		progs = append(progs, dsl.P6()...)
 		progs = append(progs, dsl.P4()...)
+		progs = append(progs, targetedFamilies()...)
 	}
 	progs = replayFilter(ctx, progs)
 	langs := devLangs()
